@@ -1026,7 +1026,8 @@ class Fxp():
             new_val = new_val_real + 1j * new_val_imag
 
             if index is not None:
-                if isinstance(self.val, np.ndarray) and self.val.dtype.kind in 'iu' and self.val.base is None and self.n_word <= 53:
+                if isinstance(self.val, np.ndarray) and self.val.dtype.kind in 'iu' and self.n_word <= 53 \
+                        and not (isinstance(getattr(self, '_viewed', None), np.ndarray) and np.may_share_memory(self.val, self._viewed)):
                     # (real codes receive a complex one by index: they are held as complex numbers from now on; a view into the codes of another
                     #  object - x[i][j] = v - keeps writing through to them, codes of more than 53 bits stay integers)
                     self.val = self.val.astype(complex)
@@ -1675,6 +1676,8 @@ class Fxp():
         # return Fxp(self.val[index], like=self, raw=True)
         y = Fxp(like=self)
         y.val = self.val[index]
+        # (remembered if the element(s) are a view of these codes: a chained indexed assignment has to keep writing through to them)
+        y._viewed = self.val if isinstance(y.val, np.ndarray) and isinstance(self.val, np.ndarray) and np.may_share_memory(y.val, self.val) else None
         y._update_dtype()   # (the element(s) can be complex while the empty object created above is not)
         return y
 
